@@ -424,7 +424,7 @@ func runC19(c *Ctx) error {
 	c.Rep.Rule = "native: the six NewFunc forms x arities 0..6 x 0..4 results, called above a caller prefix of 0..3 values with the right / a wrong argument count, every requested result count 0..4, panicking bodies, variadic natives with 0..3 extras, by a CALL instruction and by VM.Func; scripts: natives with 0..5 parameters called as multi-assign, nested in arithmetic, inside a slice literal, variadic with extras or a spread slice, a native that re-enters the VM; VM.Call on a two-result script function for requested counts 0..3; errors from a native panic, from a nested VM.Call and from a script called by the host; round trips of every constructor over boundary and random values; distinct = distinct call line / script; non-trivial = non-empty caller prefix and accepted call / more than one parameter"
 	nn, ns, nr := 2000, 40, 5000
 	if c.Thorough() {
-		nn, ns, nr = 300000, 3000, 2000000
+		nn, ns, nr = 600000, 10000, 3000000
 	}
 	lines, impl := c.c19Natives(nn)
 	if c.Model != nil {
